@@ -26,7 +26,7 @@ lines = r.stdout.strip().splitlines()
 verdict["suite_with_patch"] = "pass" if lines and all(" 0 failed" in l for l in lines) and not any(l.startswith("error") for l in lines) else "FAIL: " + " | ".join(lines)[-300:]
 shutil.copy(f"{src}/demo.rs", f"{wt}/tests/seed_demo.rs")
 r = sh("cargo test --offline --test seed_demo --features ram_bundle 2>&1 | tail -30", cwd=wt)
-verdict["demo_with_patch"] = "fails" if "test result: FAILED" in r.stdout or "panicked" in r.stdout else ("passes" if "test result: ok" in r.stdout else "error: " + r.stdout[-300:])
+verdict["demo_with_patch"] = "fails" if "test result: FAILED" in r.stdout or "panicked" in r.stdout or "(signal:" in r.stdout else ("passes" if "test result: ok" in r.stdout else "error: " + r.stdout[-300:])
 sh(f"git -C {wt} apply -R {src}/patch.diff")
 r = sh("cargo test --offline --test seed_demo --features ram_bundle 2>&1 | tail -30", cwd=wt)
 verdict["demo_without_patch"] = "passes" if "test result: ok" in r.stdout and "FAILED" not in r.stdout else "FAILS: " + r.stdout[-300:]
